@@ -49,7 +49,9 @@ ASSUMPTIONS = [
 # ----------------------------------------------------------------------------
 def gen_config(rng):
     ndim = rng.choice([1, 1, 1, 2, 2, 3])
-    axes = [build.gen_axis(rng, max_bins=6 if ndim == 1 else (4 if ndim == 2 else 3)) for _ in range(ndim)]
+    fams = ["static", "static", "pairs", "numpy", "fixed", "fixed", "exp", "near"]
+    axes = [build.gen_axis(rng, max_bins=6 if ndim == 1 else (4 if ndim == 2 else 3), families=fams)
+            for _ in range(ndim)]
     wkind = rng.choice(build.WEIGHT_KINDS)
     return {
         "hist": {"ndim": ndim, "axes": axes, "dtype": build.pick_dtype(rng, wkind),
@@ -202,7 +204,13 @@ def execute(plan, ctx):
     ndim = hs["ndim"]
     entries = plan["entries"]
     exact = cfg["exact"]
-    consecutive = all(bool(build.make_binning(a).is_consecutive()) for a in hs["axes"])
+    # "consecutive" in the sense of the statement: every bin starts exactly where the previous one ends
+    # (physt's own is_consecutive() is tolerance-based and calls bins with one-ulp gaps consecutive)
+    def exactly_consecutive(spec):
+        b = build.spec_bins(spec)
+        return bool(np.array_equal(b[1:, 0], b[:-1, 1]))
+
+    consecutive = all(exactly_consecutive(a) for a in hs["axes"])
     reps = {}
     if not hs["keep_missed"]:
         ctx.fault("keep_missed_off")
